@@ -796,6 +796,13 @@ fn collect_variant_attrs(items: &[Box<rustc_ast::ast::Item>], out: &mut Vec<(Str
         match &it.kind {
             ItemKind::Mod(_, _, ModKind::Loaded(inner, ..)) => collect_variant_attrs(inner, out),
             ItemKind::Enum(ident, _, def) => {
+                for a in it.attrs.iter() {
+                    out.push((
+                        ident.to_string(),
+                        String::new(),
+                        rustc_ast_pretty::pprust::attribute_to_string(a),
+                    ));
+                }
                 for v in def.variants.iter() {
                     for a in v.attrs.iter() {
                         out.push((
